@@ -168,8 +168,14 @@ func (m *monT) step(e hev) string {
 			}
 			m.watchOk = true
 		case e.Op == "watch" && e.Rv.Kind == "err":
-			if !(m.dispCalled || m.watchOk) {
-				return "S9: Watch failed although neither Dispose was called nor Watch had succeeded"
+			otherWatch := false
+			for _, q := range m.pend { // m.pend no longer contains this call
+				if q.op == "watch" {
+					otherWatch = true
+				}
+			}
+			if !(m.dispCalled || m.watchOk || otherWatch) {
+				return "S9: Watch failed although Dispose was not called, no Watch had succeeded and no other Watch call was pending"
 			}
 		default:
 			return "ill-typed return value"
